@@ -230,6 +230,13 @@ NoPanic(ev) ==
 
 \* A list-shaped accessor driven in other ways (nth on fresh iterators, repeated nth(1), skip, step_by, last,
 \* count, two interleaved iterators, size_hint) describes the same list as plain next() calls.
+PartOk(list, r) ==
+    LET n == Len(list)
+        k == r[1]
+    IN  /\ k <= n /\ r[2] = n - k
+        /\ r[3] = (IF k < n THEN << list[k + 1] >> ELSE <<>>)
+        /\ r[4] = (IF k < n THEN << list[n] >> ELSE <<>>)
+        /\ r[5] <= n - k /\ (r[6] = -1 \/ n - k <= r[6])
 AltOk(list, alt) ==
     LET n == Len(list)
     IN  /\ alt.n = n
@@ -241,6 +248,11 @@ AltOk(list, alt) ==
         /\ alt.last = (IF n = 0 THEN <<>> ELSE << list[n] >>)
         /\ alt.a = list /\ alt.b = list
         /\ alt.hint[1] <= n /\ (alt.hint[2] = -1 \/ n <= alt.hint[2])
+        \* partly consumed by next(), the rest through fold / for_each / try_for_each; size_hint on the way and after
+        \* an nth() beyond the end
+        /\ \A nm \in {"fold", "tryf", "foreach"} :
+              Has(alt, nm) => \A i \in 1..Len(alt[nm]) : PartOk(list, alt[nm][i])
+        /\ Has(alt, "hint_end") => (alt.hint_end[1] = 0 /\ alt.hint_end2[1] = 0)
 
 \* ---- fixed-layout fields (C09)
 SrFieldsOk(b, v) ==
